@@ -17,6 +17,28 @@ def tmax_for(steps, dt):
     return t
 
 
+class ArgsMutated(Exception):
+    """integrate changed an object the caller handed to it (raised by the seam below, counted as behaviour of the
+    library: `sut_defect` makes driver.exc_in_harness answer False)."""
+    sut_defect = True
+
+
+def _arg_prints(ckpt, params, param_state, data_stimuli, data_clamps, all_states):
+    """Fingerprints of the caller-owned argument objects: list / dict structure, and identity of the (immutable) arrays."""
+    def tree(x):
+        if isinstance(x, dict):
+            return ("dict", tuple((k, tree(v)) for k, v in x.items()))
+        if isinstance(x, (list, tuple)):
+            return (type(x).__name__, tuple(tree(v) for v in x))
+        if isinstance(x, (int, float, str, bool)) or x is None:
+            return repr(x)
+        if hasattr(x, "columns") and hasattr(x, "index"):  # pandas frame inside data_stimuli / data_clamps
+            return ("frame", tuple(map(str, x.columns)), tuple(x.index.tolist()), tuple(map(repr, x.to_numpy().ravel().tolist())))
+        return ("obj", id(x))
+    return {"checkpoint_lengths": tree(ckpt), "params": tree(params), "param_state": tree(param_state),
+            "data_stimuli": tree(data_stimuli), "data_clamps": tree(data_clamps), "all_states": tree(all_states)}
+
+
 def integrate(m, steps=None, dt=0.025, solver="bwd_euler", vsolver="jaxley.stone", mode="eager", ckpt=None,
               params=None, param_state=None, data_stimuli=None, data_clamps=None, all_states=None, return_states=False):
     """mode: eager | jit.  Returns np.ndarray (or (np.ndarray, states)) — exceptions propagate."""
@@ -25,6 +47,8 @@ def integrate(m, steps=None, dt=0.025, solver="bwd_euler", vsolver="jaxley.stone
         kw["t_max"] = tmax_for(steps, dt)
     if all_states is not None:
         kw["all_states"] = all_states
+    ck_copy = list(ckpt) if isinstance(ckpt, list) else None
+    prints = _arg_prints(ckpt, params, param_state, data_stimuli, data_clamps, all_states)
     p = params  # None: `params` is left at integrate's own default (as users do), not replaced by a fresh list
 
     def f(p, ps, ds, dc):
@@ -46,6 +70,14 @@ def integrate(m, steps=None, dt=0.025, solver="bwd_euler", vsolver="jaxley.stone
                              None if data_clamps is None else data_clamps[1])
         else:
             out = f(p, param_state, data_stimuli, data_clamps)
+    after = _arg_prints(ckpt, params, param_state, data_stimuli, data_clamps, all_states)
+    if after != prints:
+        changed = [k for k in prints if prints[k] != after[k]]
+        msg = f"integrate changed the argument object(s) {changed} the caller passed"
+        if "checkpoint_lengths" in changed:
+            msg += f": checkpoint_lengths was {ck_copy}, is now {list(ckpt)}"
+            ckpt[:] = ck_copy  # the program (and its replay file) keeps what was generated
+        raise ArgsMutated(msg)
     if return_states:
         return np.asarray(out[0]), out[1]
     return np.asarray(out)
